@@ -5,17 +5,17 @@ spec:   IoBuf (port algebra Slice/Index/Concat/Invert over [dir, inv, src]; Buff
         register machine; evaluation of port-building programs; theorems), IoBufCases (builder: every state with a
         finished program = one test case with the specification's answers), IoBufFF (the FFBuffer machine explored
         over all event sequences; theorem Latency1), IoBufTrace (validation of recorded executions and netlists).
-stages: mc        IoBufCases theorems on every enumerated port, IoBufFF Latency1, five mutant models that must fail
+stages: mc        IoBufCases theorems on every enumerated port, IoBufFF Latency1, four mutant models that must fail
+                  (all TLC runs concurrently)
         cases     spec -> code: every finished program is rebuilt from io.SimulationPort leaves with the public
-                  operators; len / direction / invert compared literally; every (Buffer|FFBuffer, direction) is
-                  constructed (refused ones must raise ValueError) and simulated in pysim for the stimulus TLC used;
-                  leaf .o/.oe and buffer .i compared with the values TLC computed, wire by wire through `src`
-        tours     every edge of the IoBufFF graph replayed on the real FFBuffer (two clock domains), validated by
-                  IoBufTrace
-        random    code -> spec: seeded random runs (directly driven signals, default and named domains, wider ports)
-                  validated by IoBufTrace
-        netlist   Buffer / FFBuffer on SingleEndedPort / DifferentialPort: exported NIR cells judged by IoBufTrace
+                  operators; len / direction / invert compared literally; (Buffer|FFBuffer, direction) constructors are
+                  tried (refused ones must raise ValueError) and the accepted buffers simulated in pysim for the stimulus
+                  TLC used; leaf .o/.oe and buffer .i compared with the values TLC computed, wire by wire through `src`
+        tours     every edge of the IoBufFF graph replayed on the real FFBuffer (two clock domains)
+        random    code -> spec: seeded random runs (signals driven directly, default and named domains, wider ports)
+        netlist   Buffer / FFBuffer on SingleEndedPort / DifferentialPort: exported NIR cells
         binding   corrupted recordings / netlists must be rejected
+                  (tours, random, netlist and binding are judged by one batch of IoBufTrace runs)
 Verdicts: literal comparison with TLC-computed values (cases) or IoBufTrace clauses (everything else)."""
 import json
 import os
@@ -435,7 +435,7 @@ def _case_worker(job):
                                     "expected": list(want), "actual": [got[0], got[1], list(got[2])]})
                 continue
             src = [tuple(x) for x in p["src"]]
-            if out["sample"] is None and len(prog) >= 4 and exp["acc"] and exp["acc"][-1]["obs"]:
+            if out["sample"] is None and len(prog) >= 4 and want[0] >= 2 and any(want[2]) and exp["acc"] and exp["acc"][-1]["obs"]:
                 out["sample"] = {"program": r, "len": want[0], "direction": want[1], "invert": list(want[2]), "wires": src,
                                  "buffer": exp["acc"][-1]["kind"] + "/" + exp["acc"][-1]["bdir"],
                                  "expected <<port.o, port.oe, i>> per step": [list(x) for x in exp["acc"][-1]["obs"][:4]]}
@@ -591,7 +591,24 @@ def gen_programs(rng, n, maxw=9, maxleaves=4):
 
 def judge(ctx, items, metas, stage, extra=()):
     """Verdicts of IoBufTrace for items (+ extra items that are judged but never reported)."""
-    verdicts = tracecheck.validate(ctx, "IoBufTrace", list(items) + list(extra), stage, cfg=CFG_TRACE, batch_size=6000)
+    everything = list(items) + list(extra)
+    parts = [everything[n:n + 3000] for n in range(0, len(everything), 3000)]
+    if len(parts) <= 1:
+        verdicts = tracecheck.validate(ctx, "IoBufTrace", everything, stage, cfg=CFG_TRACE, batch_size=3000)
+    else:                                       # several batches: one TLC each, concurrently
+        before = (ctx.cov["traces_validated_against_impl"], ctx.cov.get("trace_states_checked", 0))
+        with ThreadPoolExecutor(min(6, len(parts))) as ex:
+            vs = list(ex.map(lambda a: tracecheck.validate(ctx, "IoBufTrace", a[1], "%s-%d" % (stage, a[0]), cfg=CFG_TRACE,
+                                                           batch_size=3000, workers=4), enumerate(parts)))
+        verdicts = [v for part in vs for v in part]
+        agg = ctx.cov["stages"].setdefault(stage + "/validate", {})
+        for n in range(len(parts)):
+            st = ctx.cov["stages"].pop("%s-%d/validate" % (stage, n))
+            for k in ("tlc_states", "tlc_generated", "trace_states", "batches"):
+                agg[k] = agg.get(k, 0) + st.get(k, 0)
+            agg["tlc_wall_s"] = max(agg.get("tlc_wall_s", 0), st.get("tlc_wall_s", 0))
+        ctx.cov["traces_validated_against_impl"] = before[0] + len(everything)      # (counters are not thread-safe)
+        ctx.cov["trace_states_checked"] = before[1] + agg["trace_states"]
     for v, it, me in zip(verdicts, items, metas):
         if v[0] == "REJ":
             step, clause = v[1], v[2]
@@ -707,12 +724,15 @@ def run(ctx):
     t1 = time.time()
 
     # ---------------- binding demonstration: corrupted recordings must be rejected (same TLC run) -----------------
-    gi = next((n for n, (it, me) in enumerate(zip(items, metas)) if it["k"] == "sim" and me["kind"] == "ff" and it["bdir"] == "io"
-               and len(it["steps"]) > 8 and any(x[3] for x in it["steps"][:-1])), None)
+    demo_job = ((True, False), "io", "io", 2, [(True, True, o, oe, pin) for o, oe, pin in
+                                                 [(1, True, 2), (2, True, 1), (3, False, 1), (0, False, 2), (1, True, 0), (2, False, 3), (0, True, 0)]])
+    items.append(_tour_job(demo_job))
+    metas.append({"driver": "tour", "kind": "ff", "job": list(demo_job[:4]) + [[list(x) for x in demo_job[4]]]})
+    gi = len(items) - 1
     ni = next((n for n, (it, me) in enumerate(zip(items, metas)) if it["k"] == "net" and it["cls"] == "diff" and it["bdir"] == "io"
                and me["kind"] == "comb" and len(it["top_o"]) >= 2), None)
-    if gi is None or ni is None:
-        raise MachineryError("no suitable trace / netlist for the binding demonstration")
+    if ni is None:
+        raise MachineryError("no suitable netlist for the binding demonstration")
     good, ngood = items[gi], items[ni]
     bad1 = json.loads(json.dumps(good))
     for x in bad1["steps"]:
